@@ -1,0 +1,34 @@
+package utils
+
+import (
+	"os"
+	"path/filepath"
+)
+
+// WriteFileAtomic writes data to a temporary file beside path and renames it over
+// path, so a crash or a failed write never leaves a truncated or mixed file behind:
+// afterwards path holds either its previous content or exactly data.
+func WriteFileAtomic(path string, data []byte, perm os.FileMode) error {
+	tmp, err := os.CreateTemp(filepath.Dir(path), "."+filepath.Base(path)+".tmp-*")
+	if err != nil {
+		return err
+	}
+	tmpName := tmp.Name()
+	_, err = tmp.Write(data)
+	if err == nil {
+		err = tmp.Sync()
+	}
+	if closeErr := tmp.Close(); err == nil {
+		err = closeErr
+	}
+	if err == nil {
+		err = os.Chmod(tmpName, perm)
+	}
+	if err == nil {
+		err = os.Rename(tmpName, path)
+	}
+	if err != nil {
+		os.Remove(tmpName)
+	}
+	return err
+}
